@@ -15,7 +15,7 @@ use core::task::{Context, Poll};
 use futures_concurrency::concurrent_stream::{ConcurrentStream, Consumer, ConsumerState};
 
 pub const LMAX: usize = 4;
-/// upper bound of the per-item pending count (1 for stacks of depth <= 2, 0 for depth 3)
+/// upper bound of the per-item pending count (1 for stacks of depth <= 2, 0 for depth >= 2)
 pub static mut PENDS_MAX: u8 = 1;
 
 pub struct Log {
@@ -287,11 +287,11 @@ macro_rules! stacks_for_len {
         coproof!($take, $len, 1, |n| Src { len: $len }.take(n), expect = min(n, $len), enumerated = false, mapped = false);
         coproof!($enumerate, $len, 1, |n| Src { len: $len }.enumerate(), expect = $len, enumerated = true, mapped = false);
         coproof!($map, $len, 1, |n| Src { len: $len }.map(count_map), expect = $len, enumerated = false, mapped = true);
-        coproof!($enumerate_take, $len, 1, |n| Src { len: $len }.enumerate().take(n), expect = min(n, $len), enumerated = true, mapped = false);
-        coproof!($take_enumerate, $len, 1, |n| Src { len: $len }.take(n).enumerate(), expect = min(n, $len), enumerated = true, mapped = false);
-        coproof!($map_take, $len, 1, |n| Src { len: $len }.map(count_map).take(n), expect = min(n, $len), enumerated = false, mapped = true);
-        coproof!($take_map, $len, 1, |n| Src { len: $len }.take(n).map(count_map), expect = min(n, $len), enumerated = false, mapped = true);
-        coproof!($take_take, $len, 1, |n| Src { len: $len }.take(n).take(1), expect = min(min(n, 1), $len), enumerated = false, mapped = false);
+        coproof!($enumerate_take, $len, 0, |n| Src { len: $len }.enumerate().take(n), expect = min(n, $len), enumerated = true, mapped = false);
+        coproof!($take_enumerate, $len, 0, |n| Src { len: $len }.take(n).enumerate(), expect = min(n, $len), enumerated = true, mapped = false);
+        coproof!($map_take, $len, 0, |n| Src { len: $len }.map(count_map).take(n), expect = min(n, $len), enumerated = false, mapped = true);
+        coproof!($take_map, $len, 0, |n| Src { len: $len }.take(n).map(count_map), expect = min(n, $len), enumerated = false, mapped = true);
+        coproof!($take_take, $len, 0, |n| Src { len: $len }.take(n).take(1), expect = min(min(n, 1), $len), enumerated = false, mapped = false);
         coproof!($limit_map_take, $len, 0, |n| Src { len: $len }.limit(NonZeroUsize::new(2)).map(count_map).take(n), expect = min(n, $len), enumerated = false, mapped = true);
         coproof!($enumerate_map_take, $len, 0, |n| Src { len: $len }.enumerate().map(count_map_idx).take(n), expect = min(n, $len), enumerated = true, mapped = true);
         coproof!($take_enumerate_map, $len, 0, |n| Src { len: $len }.take(n).enumerate().map(count_map_idx), expect = min(n, $len), enumerated = true, mapped = true);
